@@ -170,4 +170,70 @@ theorem sim_keysStart (s : Sim) (hs : SimOk (normSim s)) : ∀ x ∈ s.lineList,
     rw [lineList_norm]; exact List.mem_map_of_mem hx
   exact simOk_lines _ hs _ this
 
+/-! ### decidable checkers (for the non-vacuity examples) -/
+
+def keyOkB (k : Text) : Bool :=
+  k.all (fun c => c != '=' && c != ']') && (match k with | [] => true | c :: _ => !isSep c)
+
+theorem keyOk_of_B (k : Text) (h : keyOkB k = true) : KeyOk k := by
+  simp only [keyOkB, Bool.and_eq_true, List.all_eq_true, bne_iff_ne, ne_eq] at h
+  refine ⟨fun c hc => h.1 c hc, ?_⟩
+  intro c r hk
+  subst hk
+  simpa using h.2
+
+def lineOkB (ps : Params) : Bool :=
+  ps.all (fun kv => keyOkB kv.1 && valOk kv.2) && decide ((ps.map (·.1)).Nodup)
+
+theorem lineOk_of_B (ps : Params) (h : lineOkB ps = true) : LineOk ps := by
+  simp only [lineOkB, Bool.and_eq_true, List.all_eq_true, decide_eq_true_eq] at h
+  exact ⟨fun kv hkv => ⟨keyOk_of_B _ (h.1 kv hkv).1, (h.1 kv hkv).2⟩, h.2⟩
+
+def RLine.okB (x : RLine) : Bool :=
+  decide (x.deco.tag.map Char.toLower = x.dt.name.map Char.toLower) && lineOkB x.ps
+
+theorem RLine.ok_of_B (x : RLine) (h : x.okB = true) : x.Ok := by
+  simp only [RLine.okB, Bool.and_eq_true, decide_eq_true_eq] at h
+  exact ⟨h.1, lineOk_of_B _ h.2⟩
+
+def DNet.shapeB (n : DNet) : Bool := (n.hd.ps.get? ['i', 'd']).isSome && !n.ips.isEmpty
+def DSec.shapeB (s : DSec) : Bool := decide (IsSec s.kind) && !s.leaves.isEmpty
+def DMach.shapeB (m : DMach) : Bool := m.secs.all DSec.shapeB && decide ((m.secs.map (·.kind)).Perm secKinds)
+def DBlock.shapeB : DBlock → Bool
+  | .template _ => true
+  | .nets _ ns => ns.all DNet.shapeB
+  | .machs _ ms => ms.all DMach.shapeB
+
+theorem DNet.shape_of_B (n : DNet) (h : n.shapeB = true) : n.Shape := by
+  simp only [DNet.shapeB, Bool.and_eq_true, Option.isSome_iff_exists, Bool.not_eq_true',
+    List.isEmpty_eq_false_iff] at h
+  exact h
+
+theorem DSec.shape_of_B (s : DSec) (h : s.shapeB = true) : s.Shape := by
+  simp only [DSec.shapeB, Bool.and_eq_true, decide_eq_true_eq, Bool.not_eq_true',
+    List.isEmpty_eq_false_iff] at h
+  exact h
+
+theorem DMach.shape_of_B (m : DMach) (h : m.shapeB = true) : m.Shape := by
+  simp only [DMach.shapeB, Bool.and_eq_true, List.all_eq_true, decide_eq_true_eq] at h
+  exact ⟨fun s hs => DSec.shape_of_B s (h.1 s hs), h.2⟩
+
+theorem DBlock.shape_of_B (b : DBlock) (h : b.shapeB = true) : b.Shape := by
+  cases b with
+  | template hd => trivial
+  | nets hd ns =>
+    simp only [DBlock.shapeB, List.all_eq_true] at h
+    exact fun n hn => DNet.shape_of_B n (h n hn)
+  | machs hd ms =>
+    simp only [DBlock.shapeB, List.all_eq_true] at h
+    exact fun m hm => DMach.shape_of_B m (h m hm)
+
+def Doc.okB (doc : Doc) : Bool :=
+  doc.lines.all RLine.okB && doc.all DBlock.shapeB && decide ((doc.sim.networks.map (·.1)).Nodup) &&
+    decide (1 + lc doc.lines ≤ i32Max)
+
+theorem Doc.ok_of_B (doc : Doc) (h : doc.okB = true) : doc.Ok := by
+  simp only [Doc.okB, Bool.and_eq_true, List.all_eq_true, decide_eq_true_eq] at h
+  exact ⟨fun x hx => RLine.ok_of_B x (h.1.1.1 x hx), fun b hb => DBlock.shape_of_B b (h.1.1.2 b hb), h.1.2, h.2⟩
+
 end Elvis.Ndl
